@@ -719,6 +719,43 @@ def gen_misc():
         out.append("/-- `Buffer::%s` (MAX_CAPACITY is a parameter: usize::MAX / WORD_BITS) -/" % fn)
         out.append("def %s (MAX_CAPACITY : Int) (%s : Int) :=\n    %s\n" % (fn, ident(params[0]), lean))
         info[fn] = hashlib.sha1(body.encode()).hexdigest()[:12]
+    # digit-conversion chunk sizes and the "stop squaring" test of the divide-and-conquer printer
+    for rel, name, lean_name in (("integer/src/fmt/non_power_two.rs", "CHUNK_LEN", "fmt_CHUNK_LEN"),
+                                 ("integer/src/parse/non_power_two.rs", "CHUNK_LEN", "parse_CHUNK_LEN")):
+        v = const_value(read(rel), name, rel)
+        out.append("/-- `%s` in %s -/\ndef %s : Nat := %d\n" % (name, rel, lean_name, v))
+        info[lean_name] = v
+    fsrc = read("integer/src/fmt/non_power_two.rs")
+    m = re.search(r"impl\s+PreparedLarge\s*\{", fsrc)
+    if not m:
+        raise ExtractError("impl PreparedLarge not found")
+    _, nbody = fn_body(fsrc, "new", after=r"impl\s+PreparedLarge\s*\{")
+    nbody = re.sub(r"//[^\n]*", "", nbody)        # the comment above the test also contains the word `if`
+    lp = nbody.find("loop {")
+    mm = re.search(r"if\s+([^{};]+?)\s*\{\s*break;", nbody[lp:]) if lp >= 0 else None
+    if not mm:
+        raise ExtractError("PreparedLarge::new: length shortcut `if … { break; }` not found inside the loop")
+    cond = re.sub(r"\b(\w+)\.len\(\)", r"\1_len", mm.group(1))
+    names = sorted(set(re.findall(r"\b(\w+_len)\b", cond)))
+    if names != ["number_len", "prev_len"]:
+        raise ExtractError("PreparedLarge::new: unexpected operands in the length shortcut: %s" % cond)
+    lean, _ = translate_body("{ " + cond + " }")
+    out.append("/-- the length shortcut that stops squaring the radix-power tower in `PreparedLarge::new`\n    (integer/src/fmt/non_power_two.rs): `%s` -/" % mm.group(1).strip())
+    out.append("def fmt_tower_stop (prev_len number_len : Int) : Bool :=\n    %s\n" % lean)
+    info["fmt_tower_stop"] = hashlib.sha1(cond.encode()).hexdigest()[:12]
+    # float base conversion: exponent magnitude up to which the exact path is used
+    csrc = read("float/src/convert.rs")
+    m = re.search(r"const\s+THRESHOLD_SMALL_EXP\s*:\s*isize\s*=\s*\(Word::BITS as f32 \* ([0-9.]+)\) as isize\s*;", csrc)
+    if not m:
+        raise ExtractError("THRESHOLD_SMALL_EXP in float/src/convert.rs is not of the form `(Word::BITS as f32 * c) as isize`")
+    import struct
+    def f32(x):
+        return struct.unpack("f", struct.pack("f", x))[0]
+    cst = f32(float(m.group(1)))
+    vals = {W: int(f32(f32(float(W)) * cst)) for W in (16, 32, 64)}
+    out.append("/-- `THRESHOLD_SMALL_EXP = (Word::BITS as f32 * %s) as isize` in float/src/convert.rs, per word size -/" % m.group(1))
+    out.append("def float_THRESHOLD_SMALL_EXP (W : Nat) : Nat :=\n    if W = 64 then %d else if W = 32 then %d else if W = 16 then %d else 0\n" % (vals[64], vals[32], vals[16]))
+    info["float_THRESHOLD_SMALL_EXP"] = vals[64]
     rsrc = read("rational/src/simplify.rs")
     params, body = fn_body(rsrc, "is_simpler_than")
     lean, _ = translate_body(body)
